@@ -82,6 +82,9 @@ def gen_scenario(rng, allow_findings=True, max_events=7, profile=None):
     # `refresh_event = 1` re-collects the switch times at every accepted step; with unchanged timers this must
     # be observationally identical to the default
     sc['refresh_event'] = 1 if rng.random() < 0.25 else 0
+    # a custom event flag raised during some steps (as a perturbation file would do), and check_conn on/off
+    sc['custom_rate'] = rng.choice([0.0, 0.0, 0.05, 0.2])
+    sc['check_conn'] = 1 if rng.random() < 0.8 else 0
     if profile:
         sc.update(profile)
     return sc
@@ -96,16 +99,19 @@ class Script:
         self.k = 0
         self.burst = 0
         self.log = []
+        self.custom_rate = 0.0
+        self.last_custom = False
 
     BUDGET = 2500
 
-    def next(self):
+    def next(self, allow_custom=True):
         r = self.rng
         mode = self.mode
         if self.k >= self.BUDGET:
             # keep runs short: from here on every step converges quickly (the step size grows again)
             self.k += 1
             self.log.append('c3')
+            self.last_custom = False
             return True, 3, False, False
         conv, nan, crit = True, False, False
         niter = r.choice([1, 2, 3, 5, 6, 7, 9, 14, 15, 16, 20]) if r.random() < 0.8 else r.randrange(0, 25)
@@ -128,8 +134,14 @@ class Script:
         elif mode == 'crit':
             crit = r.random() < 0.03
         self.k += 1
-        code = ('x' if crit else 'c') if conv else ('n' if nan else 'f')
+        custom = False
+        if self.custom_rate and not crit and not nan and r.random() < self.custom_rate and allow_custom:
+            # (a custom event raised exactly at a scheduled event time would run that event's action twice;
+            # the generator keeps the two kinds of events apart)
+            custom = True
+        code = ('x' if crit else ('e' if custom else 'c')) if conv else ('n' if nan else ('g' if custom else 'f'))
         self.log.append('%s%d' % (code, niter))
+        self.last_custom = custom
         return conv, niter, nan, crit
 
 
@@ -172,16 +184,24 @@ def run_scenario(sc):
         cfg.limit_store = sc['limit_store']
         cfg.max_store = sc['max_store']
     script = Script(sc['vmode'], sc['vseed'])
+    script.custom_rate = sc.get('custom_rate', 0.0)
+    cfg.check_conn = sc.get('check_conn', 1)
     obs = {'segs': [], 'events': [], 'calls': [], 'ulog': [], 'u0': [float(x) for x in ss.Line.u.v]}
     state = {'crit': False}
+
+    sw_set = set()
 
     def stub():
         if tds.h == 0:
             return False
-        conv, niter, nan, crit = script.next()
+        if not sw_set and ss.n_switches:
+            sw_set.update(float(x) for x in ss.switch_times)
+        conv, niter, nan, crit = script.next(allow_custom=float(dae.t) not in sw_set)
         obs['calls'].append(float(dae.t))
         tds.niter = niter
         tds.converged = conv
+        if script.last_custom:
+            tds.custom_event = True
         if nan:
             tds.busted = True
         state['crit'] = crit
@@ -197,9 +217,20 @@ def run_scenario(sc):
         before = list(ss.Line.u.v)
         orig_sa(models)
         after = list(ss.Line.u.v)
-        obs['events'].append({'t': float(dae.t), 'models': sorted(models.keys()),
+        timed = (tds._switch_idx < ss.n_switches and float(dae.t) == float(ss.switch_times[tds._switch_idx])
+                 and models is ss.switch_dict.get(ss.switch_times[tds._switch_idx]))
+        obs['events'].append({'t': float(dae.t), 'models': sorted(models.keys()), 'custom': not timed,
                               'flipped': [i for i in range(len(before)) if before[i] != after[i]]})
     ss.switch_action = sa
+    obs['conn_calls'] = 0
+    orig_conn = ss.connectivity
+
+    def conn(*a, **k):
+        # `do_switch` re-checks with info=False; the checks made by PFlow / ConnMan use the default
+        if k.get('info', True) is False:
+            obs['conn_calls'] += 1
+        return orig_conn(*a, **k)
+    ss.connectivity = conn
     orig_cb = ss.Toggle.t.callback
 
     def cb(is_time):
@@ -222,7 +253,8 @@ def run_scenario(sc):
                             'dmax': float(tds.deltatmax), 'idx': int(tds._switch_idx), 'niter': int(tds.niter),
                             'converged': bool(tds.converged), 'busted': bool(tds.busted),
                             'fixt': bool(cfg.fixt), 'ok': bool(ok), 'kcount': int(dae.kcount),
-                            'guard': guard, 'tf': float(tf), 'exit_code': int(ss.exit_code),
+                            'guard': guard, 'tf': float(tf), 'exit_code': int(ss.exit_code), 'conn': int(obs['conn_calls']),
+                            'custom_pending': bool(tds.custom_event),
                             'nstamps': len(dae.ts.t)})
     obs['stamps'] = [float(x) for x in dae.ts.t]
     obs['verdicts'] = list(script.log)
@@ -244,8 +276,8 @@ def model_line(sc, obs):
         pos += seg['used']
         segs.append('%s:%s' % (f2h(seg['tf']), ','.join(vs) if vs else '-'))
     sw = ','.join(f2h(x) for x in obs['sw']) if obs['sw'] else '-'
-    return 'tds %s %s %d %d %s %s %s %s' % (f2h(sc['t0']), f2h(sc['tstep']), sc['shrinkt'], sc['fixt'],
-                                           f2h(freq_raw), f2h(float(sc['sysfreq'])), sw, ';'.join(segs))
+    return 'tds %s %s %d %d %s %s %s %s %d' % (f2h(sc['t0']), f2h(sc['tstep']), sc['shrinkt'], sc['fixt'],
+                                              f2h(freq_raw), f2h(float(sc['sysfreq'])), sw, ';'.join(segs), sc.get('check_conn', 1))
 
 
 def impl_line(obs):
@@ -255,13 +287,17 @@ def impl_line(obs):
         parts.append(' '.join([str(s['used']), f2h(s['t']), f2h(s['h']), f2h(s['deltat']), f2h(s['dmin']),
                                f2h(s['dmax']), str(s['idx']), str(s['niter']), str(int(s['converged'])),
                                str(int(s['busted'])), str(int(s['fixt'])), str(int(s['ok'])), str(s['kcount']),
-                               str(int(s['guard']))]))
+                               str(int(s['guard'])), str(s['conn']), str(int(s['custom_pending']))]))
     stamps = ','.join(f2h(x) for x in obs['stamps']) if obs['stamps'] else '-'
     fired = []
     for e in obs['events']:
+        if e.get('custom'):
+            continue
         fired.append(str(obs['sw'].index(e['t'])) if e['t'] in obs['sw'] else '?')
     parts.append(stamps)
     parts.append(','.join(fired) if fired else '-')
+    customs = [e['t'] for e in obs['events'] if e.get('custom')]
+    parts.append(','.join(f2h(x) for x in customs) if customs else '-')
     return ' | '.join(parts)
 
 
@@ -317,7 +353,7 @@ def oracle_c06(sc, obs):
     if last['ok'] and st and st[-1] != last['tf']:
         bad.append(('last-stamp-not-tf', 'successful run: last stamp %r, tf %r' % (st[-1], last['tf'])))
     if st and st[0] != 0.0:
-        if st[0] < 0 or obs['verdicts'][0][0] in 'fn':
+        if st[0] < 0 or obs['verdicts'][0][0] in 'fng':
             bad.append(('first-step-rejected-negative-time',
                         'first integration step rejected: time axis starts at %r, no stamp at t0' % st[0]))
         else:
@@ -339,7 +375,7 @@ def oracle_c06(sc, obs):
                         % (ev['t'], ev['flipped'], exp_flip)))
         if ev['t'] not in st:
             bad.append(('event-not-at-stamp', 'switch action ran at %r which is not a stored stamp' % ev['t']))
-    times_fired = [e['t'] for e in obs['events']]
+    times_fired = [e['t'] for e in obs['events'] if not e.get('custom')]
     for g in ours:
         n = times_fired.count(g['t'])
         inside = horizon is not None and 0.0 <= g['t'] <= horizon
@@ -350,6 +386,11 @@ def oracle_c06(sc, obs):
                 bad.append(('event-not-once', 'enabled event at %r fired %d times (horizon %r)' % (g['t'], n, horizon)))
         if (not inside) and n != 0 and g['u'] == 1:
             bad.append(('event-outside-fired', 'event at %r outside the simulated span fired' % g['t']))
+    # every switching (timed or custom) is followed by one connectivity re-check when check_conn is on
+    exp_conn = len(set(e['t'] for e in obs['events'])) if sc.get('check_conn', 1) else 0
+    if obs['segs'][-1]['conn'] != exp_conn:
+        bad.append(('connectivity-not-rechecked', '%d switching instants (timed or custom events) but %d connectivity re-checks (check_conn=%s)'
+                    % (exp_conn if sc.get('check_conn', 1) else len(set(e['t'] for e in obs['events'])), obs['segs'][-1]['conn'], sc.get('check_conn', 1))))
     if len(set(times_fired)) != len(times_fired):
         bad.append(('switch-time-twice', 'a switch time was processed twice'))
     # final status = initial status with the enabled events inside the span applied
@@ -367,6 +408,6 @@ def tog_line(sc, obs):
     togs = obs['toggles']
     lines = obs['line_idx']
     tg = ','.join('%s:%d:%d' % (f2h(g['t']), int(g['u']), lines.index(g['dev'])) for g in togs) or '-'
-    fired = ','.join(f2h(e['t']) for e in obs['events']) or '-'
+    fired = ','.join(f2h(e['t']) for e in obs['events'] if not e.get('custom')) or '-'
     u0 = ''.join(str(int(x)) for x in obs['u0'])
     return 'tog %s %s %s' % (tg, fired, u0)
